@@ -269,13 +269,68 @@ def random_watch_history(ctx, srv, n, label):
         srv.restart()
 
 
+IMPL_KEYS = {1: W, 2: name_in_shard(b'kk', W, True), 3: name_in_shard(b'kk', W, False)}
+
+
+def impl_watch_scenarios(ctx, num):
+    """Behaviours sampled from the mechanism model spec/impl/ImplWatch.tla (three connections, two keys of one shard and one
+    of another, two databases; watch / re-watch / unwatch / MULTI with a queued write / EXEC / DISCARD / close / SELECT /
+    SET / DEL / PEXPIRE / FLUSHDB / a deadline passing) turned into scenarios for the real server."""
+    paths = ctx.simulate_paths('ImplWatch', 'MC_Watch_sim', num, 23)
+    out = []
+    for n, path in enumerate(paths):
+        steps = []
+        for i, ev in enumerate(path):
+            a, c = ev['a'], ev.get('c')
+            k = IMPL_KEYS.get(ev.get('k'))
+            v = b'v%d' % i
+            if a == 'watch':
+                steps.append((c, [b'WATCH', k]))
+            elif a == 'unwatch':
+                steps.append((c, [b'UNWATCH']))
+            elif a == 'multi':
+                steps.append((c, [b'MULTI']))
+                if k is not None:
+                    steps.append((c, [b'SET', k, v]))
+            elif a == 'exec':
+                steps.append((c, [b'EXEC']))
+            elif a == 'discard':
+                steps.append((c, [b'DISCARD']))
+            elif a == 'close':
+                steps.append(('close', c))
+            elif a == 'select':
+                steps.append((c, [b'SELECT', str(ev['d']).encode()]))
+            elif a == 'write':
+                steps.append((c, [b'SET', k, v]))
+            elif a == 'del':
+                steps.append((c, [b'DEL', k]))
+            elif a == 'expire':
+                steps.append((c, [b'PEXPIRE', k, b'60']))
+            elif a == 'flush':
+                steps.append((c, [b'FLUSHDB']))
+            elif a == 'due':
+                steps.append(('sleep', 70))
+        out.append(('implwatch-%d' % n, steps))
+    return out
+
+
 def run(ctx):
     ctx.model_check('MC_Txn', 'MC_C07' if ctx.quick else 'MC_C07_full', workers=12, timeout=1500)
+    # the mechanism (registration counts, per-key counters, baselines, the fast path of mark_key_modified, lazy expiry and the
+    # sweeper stamping what they remove): every interleaving within the bounds; the pinned / wrong designs must fail
+    ctx.model_check('ImplWatch', 'MC_Watch_fixed_quick' if ctx.quick else 'MC_Watch_fixed', workers=12, timeout=2400, subdir='impl')
+    if not ctx.quick:
+        ctx.model_check('ImplWatch', 'MC_Watch_exact', workers=12, timeout=2400, subdir='impl')
+    ctx.extra_cov['implwatch_controls'] = {c: ctx.model_control('ImplWatch', c) for c in
+                                           ('MC_Watch_pinned_flush', 'MC_Watch_pinned_rewatch', 'MC_Watch_pinned_db', 'MC_Watch_wrong_release')}
     scs = scenarios(ctx.quick)
     ctx.extra_cov['scenarios'] = len(scs)
     ctx.extra_cov['distinct_cases'] = len(scs)
     srv = ctx.new_server()
     run_scenarios(ctx, srv, scs, 'watch')
+    iw = impl_watch_scenarios(ctx, 150 if ctx.quick else 1500)
+    run_scenarios(ctx, srv, iw, 'implwatch')
+    ctx.extra_cov['implwatch_behaviours_replayed'] = len(iw)
     hist = 8 if ctx.quick else 80
     for i in range(hist):
         random_watch_history(ctx, srv, 300 if ctx.quick else 600, 'wrand%d' % i)
@@ -303,7 +358,7 @@ def run(ctx):
     s.close_all()
     ctx.validate_segments(tr, 'forms')
     ctx.extra_cov['form_segments'] = nf
-    ctx.extra_cov['distinct_cases'] = len(scs) + hist + nf
+    ctx.extra_cov['distinct_cases'] = len(scs) + len(iw) + hist + nf
 
 
 def replay(ctx, path):
